@@ -3,7 +3,8 @@
 D=$1; SCR=$2; BIN=$3
 id=$(basename $D); WT=/tmp/mw-$id; V=$SCR/v-$id
 mkdir -p $V; cp /verif/properties.jsonl /verif/known-findings.json /verif/anchors.json $V/
-git -C /repo worktree add --detach -q $WT HEAD 2>/dev/null || { echo "$id|worktree-failed||" > $SCR/res-$id.txt; exit 0; }
+ok=0; for try in 1 2 3 4 5 6; do git -C /repo worktree add --detach -q $WT HEAD 2>/dev/null && { ok=1; break; }; sleep 1; done
+[ $ok = 1 ] || { echo "$id|worktree-failed||" > $SCR/res-$id.txt; exit 0; }
 if ! git -C $WT apply $D/patch.diff 2>/dev/null; then
   echo "$id|patch does not apply||" > $SCR/res-$id.txt
 else
